@@ -26,6 +26,15 @@ def batch_keys(run):
 
 
 def r1(run):
+    # each batch is three operations of ONE kind, one per partition (an insert batch that also removes index entries, or vice versa,
+    # lets the primary record and its index entries disagree)
+    for info in batch_bodies(run):
+        b = info["body"]
+        ops = sorted((c.fn.split("::")[-1], partition_field(c) or "?") for c in info["ops"])
+        kinds = {k for (k, p) in ops}
+        want = [(list(kinds)[0], p) for p in ("frame_partition", "idx_context", "idx_topic")] if len(kinds) == 1 else None
+        run.ob("%s|batch-shape" % b.def_, want is not None and ops == sorted(want), b.sp,
+               "the batch of %s is exactly one %s per partition: %s" % (b.def_, "/".join(sorted(kinds)), ops), reason="index-and-primary-disagree")
     bk = batch_keys(run)
     ins = bk.get(C.INSERT_FRAME)
     rem = bk.get(C.REMOVE)
